@@ -103,7 +103,12 @@ def modelAnswer (what : String) (n : Nat) (fms : List Fm) : String :=
     let r := completeAll nat.1 n nat.2
     s!"first={tfu r.2.1} set={showSetV r.2.2}"
   | "twoval" => showSetV (SM.ngSearch .simple 2000000 nat.1 n nat.2 false).2.1
-  | _ => showSetV (stableAll nat.1 n nat.2).2
+  | _ =>
+    -- `stableAll` enumerates all 2^k completions of the k statements the grounded interpretation
+    -- leaves undecided; beyond k = 16 the (equally exact, C05) nogood search takes its place
+    let g := groundedLoop StoreRA (n + 1) nat.1 nat.2
+    if (g.2.filter (fun t => !isTV t)).length ≤ 16 then showSetV (stableAll nat.1 n nat.2).2
+    else showSetV (SM.ngSearch .simple 2000000 nat.1 n nat.2 true).2.1
 
 def renameFm (ren : Nat → Nat) : Fm → Fm
   | .top => .top | .bot => .bot
@@ -200,6 +205,16 @@ def cliRun (a : AdfSt) (mode flags heu : String) (perm order : List Nat) : Strin
   let specLines := (Cli.sections m f).flatMap (sectionLines a)
   (s!"exit=0 wellformed=1 lines={j seq}", s!"exit=0 set={j (Spec.sortStrings specLines)}")
 
+/-- the parity framework of the `ngparity` request (the text the harness parses: `ac(s0,neg(s1))`,
+`ac(s1,neg(s0))`, the chain `ac(s2,s0)`, `ac(s3,s2)`, …, and
+`ac(s_last, xor(s0, xor(s2, … xor(s_chain, s_{chain+1}))))`) -/
+def parityFms (chain : Nat) : List Fm :=
+  let par := (List.range chain).foldl (fun (par : Fm) (k : Nat) =>
+      let m := chain - k
+      Fm.xor (.atom (if m == 1 then 0 else m)) par) (Fm.atom (chain + 1))
+  [Fm.not (.atom 1), Fm.not (.atom 0)] ++
+    (List.range chain).map (fun i => Fm.atom (if i == 0 then 0 else 1 + i)) ++ [par]
+
 def adfStep (a : AdfSt) (l : String) (ws : List String) : Option (List String × AdfSt) :=
   match ws with
   | ["ngbig", k] =>
@@ -208,7 +223,7 @@ def adfStep (a : AdfSt) (l : String) (ws : List String) : Option (List String ×
     -- the bounded-channel variant runs on max (k-3) 1 pairs
     let mb := 2 ^ (Nat.max ((k.toNat?.getD 0) - 3) 1)
     some ([l, s!"~ count={m} distinct={m} channel={m} twoval={m} bounded={mb} bounded-distinct={mb}"], a)
-  | ["ngparity", chain, _, _] =>
+  | ["ngparity", chain, heu, mode] =>
     -- s0: not s1, s1: not s0, chain s2: s0, s3: s2, ..., last: exclusive or of s0 and the chain.
     -- exactly two two-valued models, both stable (known by construction): s0 with the whole chain
     -- true (last = parity of chain+1 members), or s1 alone
@@ -216,7 +231,17 @@ def adfStep (a : AdfSt) (l : String) (ws : List String) : Option (List String ×
     let rep (ch : Char) : String := String.ofList (List.replicate c ch)
     let a1 := "TF" ++ rep 'T' ++ (if (c + 1) % 2 == 1 then "T" else "F")
     let a2 := "FT" ++ rep 'F' ++ "F"
-    some ([l, s!"~ {a2} {a1}"], a)
+    let byConstruction := s!"{a2} {a1}"
+    -- the MODEL's answer: the nogood search with the requested heuristic and mode on the natively
+    -- built framework (path counts near 2^c: feasible because the measures are memoised per node)
+    let fms := parityFms c
+    let nat := buildNative (c + 3) fms
+    let h : SM.Heu := if heu == "Simple" then .simple
+      else if heu == "MinModMinPathsMaxVarImp" then .minPathsMaxVarImp else .maxVarImpMinPaths
+    let r := SM.ngSearch h 1000000 nat.1 (c + 3) nat.2 (mode != "twoval")
+    let model := if r.2.2.2 then showSetV r.2.1 else "fuel-exhausted"
+    if model == byConstruction then some ([l, s!"~ {model}"], a)
+    else some ([l, s!"~ {model}", s!"# by-construction {byConstruction}"], a)
   | ["cli", _, _, _, _, _, _, _] => some ([l, "= ran"], a)
   | ["clirun", mode, _, flags, heu, perm, order, _] =>
     match parseNatList perm ",", parseNatList order "," with
@@ -341,7 +366,7 @@ def adfStep (a : AdfSt) (l : String) (ws : List String) : Option (List String ×
       | some (s, ac) =>
         let cs := ac.map (fun t =>
           let c := countF s (t + 1) t
-          let d := (sortDedup (depsOf s t)).length
+          let d := (depsSorted s t).length
           s!"{c.1},{c.2.1},{if c.1 > 2 then 2 * d else 0},{if c.2.1 > 2 then 2 * d else 0}")
         some ([l, "= " ++ (if cs.isEmpty then "-" else joinWith " " cs)], a)
       | none => some ([l, "= bad-request"], a)
